@@ -163,6 +163,25 @@ def build_harness(name, variant="lib", extra="", log=None):
     return out
 
 
+def regen_shared(log=None):
+    """Translator units whose output is imported by MORE than one property's theories (C05's tables by C01/C04/C12/C20,
+    C02's character tables and error partition by C03, C04's reader constants by C01, C14's id-map constants by C13):
+    regenerated from REPO's current source at the start of EVERY check, so that no check proves against a stale copy
+    produced by another check's earlier run.  (write_if_changed keeps make incremental.)  A unit that fails to read
+    the source is noted here; the check that owns it reports the broken tie."""
+    tdir = os.path.join(VERIF, "translator")
+    if tdir not in sys.path:
+        sys.path.insert(0, tdir)
+    units = [("tables", "gen_utf8"), ("tables", "gen_tables"), ("tables", "gen_recognizer"), ("c02_errs", "generate"),
+             ("c02_xmlchar", "generate"), ("c04_consts", "generate"), ("c14_idmap", "generate")]
+    for mod, fn in units:
+        try:
+            getattr(__import__(mod), fn)()
+        except Exception as e:
+            if log is not None:
+                log.append("regen_shared: %s.%s failed: %r" % (mod, fn, e))
+
+
 # ------------------------------------------------------------------------------------------------
 # Coq
 # ------------------------------------------------------------------------------------------------
@@ -392,7 +411,10 @@ class Ctx:
     # ---- standard steps -----------------------------------------------------------------------
     def build_lib(self, variant="lib"):
         try:
-            return build_lib(variant, self.log)
+            r = build_lib(variant, self.log)
+            if variant == "lib":
+                regen_shared(self.log)
+            return r
         except BuildError as e:
             # the tree does not compile: not a property verdict, but the check cannot hold
             self.note(str(e)[-2000:])
